@@ -36,13 +36,14 @@ def sh(cmd, **kw):
 FACT_FILES = ["Facts.v", "Markers.v", "Loans.v", "Forward.v"]
 
 
-def refresh_facts():
-    """run the extractor, recompile Facts.v and the three models when stale.  -> (ok, message)"""
-    r = sh([sys.executable, EXTRACT], timeout=300)
+def refresh_facts(need="markers,signatures,forwarding", files=None):
+    """run the extractor (only the parts in `need` are obligatory), recompile Facts.v and the models that rest on
+    those parts when stale.  -> (ok, message)"""
+    r = sh([sys.executable, EXTRACT, "--need", need], timeout=300)
     if r.returncode != 0:
         return False, "fact extractor lost track of the source: " + r.stdout.strip()[-1500:]
     newest = 0.0
-    for f in FACT_FILES:
+    for f in (files or FACT_FILES):
         src, vo = os.path.join(COQ, f), os.path.join(COQ, f[:-2] + ".vo")
         newest = max(newest, os.path.getmtime(src))
         if not os.path.exists(vo) or os.path.getmtime(vo) < newest:
@@ -308,7 +309,7 @@ def c19_derive_from_coq():
 def engine_c19(prop, spec, tier, seed, work):
     t0 = time.time()
     problems, samples = [], []
-    ok, msg = refresh_facts()
+    ok, msg = refresh_facts("markers", ["Facts.v", "Markers.v"])
     derive = None
     if not ok:
         problems.append(("mismatch", None, {"line": "T extractor - C19 " + msg}))
@@ -585,7 +586,7 @@ def engine_c20(prop, spec, tier, seed, work):
     t0 = time.time()
     problems, samples = [], []
     cells = c20_cells()
-    ok, msg = refresh_facts()
+    ok, msg = refresh_facts("signatures", ["Facts.v", "Loans.v"])
     model = None
     if not ok:
         problems.append(("mismatch", None, {"line": "T extractor - C20 " + msg}))
@@ -675,7 +676,7 @@ def engine_c20(prop, spec, tier, seed, work):
 def forwarding_problems():
     """run the extractor, recompile Facts.v / Forward.v / Props/C16F.v / Props/C17F.v; -> list of problems (same conventions)"""
     problems = []
-    ok, msg = refresh_facts()
+    ok, msg = refresh_facts("forwarding", ["Facts.v", "Forward.v"])
     if not ok:
         return [("mismatch", None, {"line": "T extractor - C16/C17 " + msg})]
     for f in ("Props/C16F.v", "Props/C17F.v"):
@@ -695,10 +696,10 @@ def forwarding_problems():
 
 # ------------------------------------------------------------------------------------------------ registration
 def register(PROPS):
-    PROPS["C19"] = {"engine": "rustc", "engine_fn": engine_c19, "monitors": ["C19"], "facts": True, "level": "proof",
+    PROPS["C19"] = {"engine": "rustc", "engine_fn": engine_c19, "monitors": ["C19"], "facts": "markers", "level": "proof",
                     "trusted_extra": ["C19: rustc 1.95 (trait selection) is the oracle on the probe matrix; the auto-trait rules of coq/Markers.v, incl. the DashMap rule taken from dashmap 6.0.0 / lock_api (trusted, only used when a manual impl is absent); "
                                       "tools/extract_facts.py (regex/brace reader of Rust source) -- cross-checked against rustc on all 104 cells each run; the theorem speaks about the model, the matrix about rustc"]}
-    PROPS["C20"] = {"engine": "rustc", "engine_fn": engine_c20, "monitors": ["C20"], "facts": True, "level": "proof",
+    PROPS["C20"] = {"engine": "rustc", "engine_fn": engine_c20, "monitors": ["C20"], "facts": "signatures", "level": "proof",
                     "trusted_extra": ["C20: rustc 1.95 (NLL borrow checker) is the oracle on the probe matrix; coq/Loans.v models loans at signature level only (no two-phase borrows, no reborrow chains); "
                                       "tools/extract_facts.py reads lifetimes from signatures by regex -- cross-checked against rustc on every probe each run"]}
 
